@@ -48,3 +48,8 @@ impl<Res> ResponseSender<Response<Res>> {
 pub async fn serve_model<S, Req, Res>(serve: S, ctx: context::Context, message: Req, Tracked(fx): Tracked<&mut SFx>) -> (out: Result<Res, ServerError>)
     ensures final(fx).log == old(fx).log.push(SEffect::Handler)
 { unimplemented!() }
+
+/// `crate::cancellations::cancellations()`: the two halves of one fresh cancellation queue (the function itself is two
+/// lines around `mpsc::unbounded_channel()`; A-mpsc)
+#[verifier::external_body]
+pub fn cancellations_model() -> (r: (RequestCancellation, CanceledRequests)) { unimplemented!() }
